@@ -613,7 +613,19 @@ func c05MustVerify(c *c05ctx) {
 				arg = core.Strip(mi.X)
 			}
 			ct := contentOf(arg.Type())
-			for _, g := range core.WithClosures(callee) {
+			// the wrapper, the goroutine body it starts (closure or named), and accessors handed to that
+			// body as function values (method expressions become thunks that invoke the method)
+			fns := unitFuncs(callee)
+			for _, g := range append([]*ssa.Function{}, fns...) {
+				for _, cs := range core.Calls(g) {
+					for _, a := range cs.Common().Args {
+						if f, isF := core.Strip(a).(*ssa.Function); isF && f.Blocks != nil {
+							fns = append(fns, f)
+						}
+					}
+				}
+			}
+			for _, g := range fns {
 				for _, cs := range core.Calls(g) {
 					if cs.Common().IsInvoke() && ct != "" {
 						k := ak{ct, cs.Common().Method.Name()}
